@@ -23,6 +23,10 @@ type vLink struct {
 	dead bool
 	dups int
 	faulty int
+	// hold: packets are kept back (not delivered) until released
+	hold    bool
+	held    [][]byte
+	monitor func(b []byte)
 	// ghost log of everything put on the wire (for monitors)
 	wire [][]byte
 }
@@ -41,7 +45,14 @@ func (l *vLink) send(ctx context.Context, b []byte) error {
 	defer l.mu.Unlock()
 	l.sent++
 	l.wire = append(l.wire, b)
+	if l.monitor != nil {
+		l.monitor(b)
+	}
 	if l.dead {
+		return nil
+	}
+	if l.hold {
+		l.held = append(l.held, b)
 		return nil
 	}
 	fate := 0
@@ -60,6 +71,17 @@ func (l *vLink) send(ctx context.Context, b []byte) error {
 	}
 	l.ch <- b
 	return nil
+}
+
+// release delivers everything that was held back and stops holding.
+func (l *vLink) release() {
+	l.mu.Lock()
+	defer l.mu.Unlock()
+	l.hold = false
+	for _, b := range l.held {
+		l.ch <- b
+	}
+	l.held = nil
 }
 
 func (l *vLink) recv(ctx context.Context) ([]byte, error) {
